@@ -223,6 +223,19 @@ let oracle (ws : string list) (obs : string) : bool =
                        (pool := aset !pool (i2n i) (Some (c', l')); true)
                    | _ -> false)
               | _ -> false) objs
+          end else if (match p.o with OInsertSelfRange (_, pos, a, b) -> n2i a < n2i pos && n2i pos < n2i b | _ -> false)
+                       && r <> Skipped then begin
+            (* a sub-range of the vector itself inserted strictly inside that range: the refinement theorem excludes it
+               (C07_self_range_overlap_refuted: the header re-reads slots it has already overwritten), so the spec fixes
+               only outcome, capacity, size and that nothing never-filled appears; the contents are adopted as observed *)
+            (match objs with
+             | [(i, s)] when [i] = ws_ ->
+                 (match aget pool' (i2n i), parse_state s with
+                  | Some (c, l), Some (c', l') ->
+                      oc = ch_outcome r && c' = c && List.length l' = List.length l && nonfresh l' &&
+                      (pool := aset pool' (i2n i) (Some (c', l')); true)
+                  | _ -> false)
+             | _ -> false)
           end else begin
             pool := pool';
             (match p.o, r with
